@@ -35,7 +35,7 @@ def _blocks(lines):
 
 
 def _sub_line(subject):
-    return "sub cls" if subject[0] == "cls" else f"sub inst {dg.enc(subject[1])}"
+    return "sub cls" if subject[0] == "cls" else "sub unset" if subject[0] == "unset" else f"sub inst {dg.enc(subject[1])}"
 
 
 class Result:
@@ -84,7 +84,7 @@ def evaluate(scns, views=("objects", "dot")):
                 d = first_diff(a, m)
                 if d:
                     r.diffs.append(("objects", subject, d))
-                if subject[0] == "cls" or any(dg.value_text(st) == subject[1] for st in s.states):
+                if subject[0] in ("cls", "unset") or any(dg.value_text(st) == subject[1] for st in s.states):
                     r.spec_fails.append(("objects", subject, f"no graph for the class / an instance in a valid state: {err}"))
                 continue
             if "objects" in views:
@@ -227,7 +227,7 @@ def perturb(rng: random.Random, s: dg.DScn):
 def python_source(s: dg.DScn):
     """the machine as a user would write it (for the reader of a replay file)"""
     def cbs(lst):
-        xs = [repr(n) if st == "name" else f"<function {n}>" for n, st in lst]
+        xs = [repr(n) if st == "name" else f"<property {n}>" if st == "prop" else f"<function {n}>" for n, st in lst]
         return xs[0] if len(xs) == 1 else "[" + ", ".join(xs) + "]"
 
     out = ["class M(StateMachine):"]
